@@ -11,6 +11,7 @@ import (
 	"github.com/ovn-org/libovsdb/database/inmemory"
 	"github.com/ovn-org/libovsdb/model"
 	"github.com/ovn-org/libovsdb/ovsdb"
+	"github.com/ovn-org/libovsdb/server"
 )
 
 // DB is the in-memory database of libovsdb driven directly through its public
@@ -19,15 +20,42 @@ type DB struct {
 	W    *World
 	DB   database.Database
 	Name string
+	// Srv serves DB (never listening): its exported Transact handler is the code a
+	// real connection runs. ViaServer routes Transact through it instead of through
+	// the transcription of that handler below.
+	Srv       *server.OvsdbServer
+	ViaServer bool
 }
 
 // NewDB creates an empty in-memory database for the world's schema.
 func NewDB(w *World) (*DB, error) {
 	db := inmemory.NewDatabase(map[string]model.ClientDBModel{w.S.Name: w.Client})
-	if err := db.CreateDatabase(w.S.Name, w.DBSchema); err != nil {
+	srv, err := server.NewOvsdbServer(db, w.DBModel)
+	if err != nil {
 		return nil, err
 	}
-	return &DB{W: w, DB: db, Name: w.S.Name}, nil
+	return &DB{W: w, DB: db, Name: w.S.Name, Srv: srv}, nil
+}
+
+// TransactViaServer hands the operations, as JSON texts, to the server's transact
+// handler (decode, execute, notify monitors, commit) and reports what a peer would see.
+func (d *DB) TransactViaServer(ops []json.RawMessage) TxnOutcome {
+	name, _ := json.Marshal(d.Name)
+	args := append([]json.RawMessage{name}, ops...)
+	var reply []*ovsdb.OperationResult
+	err := d.Srv.Transact(nil, args, &reply)
+	out := TxnOutcome{Results: reply, ViaServer: true}
+	for _, r := range reply {
+		if r != nil && r.Error != "" {
+			out.Failed = true
+		}
+	}
+	if err != nil {
+		out.CommitErr = err
+		return out
+	}
+	out.Committed = !out.Failed
+	return out
 }
 
 // DecodeOps sends the harness ops through JSON into libovsdb's Operation type,
@@ -56,11 +84,23 @@ type TxnOutcome struct {
 	Failed    bool // some result carries an error => server does not commit
 	Committed bool
 	CommitErr error // error returned by Database.Commit (surfaces as an RPC error)
+	ViaServer bool  // produced by the server's transact handler: Update is not available
 }
 
 // Transact runs a transaction the way server.Transact does: execute, commit
 // unless a result carries an error.
 func (d *DB) Transact(ops []ovsdb.Operation) TxnOutcome {
+	if d.ViaServer && d.Srv != nil {
+		raw := make([]json.RawMessage, 0, len(ops))
+		for i := range ops {
+			b, err := json.Marshal(ops[i])
+			if err != nil {
+				return TxnOutcome{CommitErr: fmt.Errorf("harness: operation %d does not encode: %w", i, err)}
+			}
+			raw = append(raw, b)
+		}
+		return d.TransactViaServer(raw)
+	}
 	txn := d.DB.NewTransaction(d.Name)
 	results, update := txn.Transact(ops...)
 	out := TxnOutcome{Results: results, Update: update}
